@@ -86,9 +86,9 @@ func CheckTestOnly(
 				if v := findTypeLiteralViolation(&context, node); v != nil {
 					// Check if this violation should be ignored before marking type as reported
 					if !ignoreSet.Contains(v.Code, v.Pos) {
-						if !reportedTypes[v.TestOnlyObj] {
+						if !reportedTypes[v.ObjPkgPath+"."+v.TestOnlyObj] {
 							violations = append(violations, *v)
-							reportedTypes[v.TestOnlyObj] = true
+							reportedTypes[v.ObjPkgPath+"."+v.TestOnlyObj] = true
 						}
 					}
 				}
@@ -98,9 +98,9 @@ func CheckTestOnly(
 				if v := findTypeUsageViolation(&context, node.Type, node.Pos()); v != nil {
 					// Check if this violation should be ignored before marking type as reported
 					if !ignoreSet.Contains(v.Code, v.Pos) {
-						if !reportedTypes[v.TestOnlyObj] {
+						if !reportedTypes[v.ObjPkgPath+"."+v.TestOnlyObj] {
 							violations = append(violations, *v)
-							reportedTypes[v.TestOnlyObj] = true
+							reportedTypes[v.ObjPkgPath+"."+v.TestOnlyObj] = true
 						}
 					}
 				}
@@ -110,9 +110,9 @@ func CheckTestOnly(
 				if v := findTypeUsageViolation(&context, node.Type, node.Pos()); v != nil {
 					// Check if this violation should be ignored before marking type as reported
 					if !ignoreSet.Contains(v.Code, v.Pos) {
-						if !reportedTypes[v.TestOnlyObj] {
+						if !reportedTypes[v.ObjPkgPath+"."+v.TestOnlyObj] {
 							violations = append(violations, *v)
-							reportedTypes[v.TestOnlyObj] = true
+							reportedTypes[v.ObjPkgPath+"."+v.TestOnlyObj] = true
 						}
 					}
 				}
@@ -248,6 +248,7 @@ func findTypeLiteralViolation(
 		return &TestOnlyViolation{
 			Pos:         node.Pos(),
 			TestOnlyObj: typeInfo.TypeName,
+			ObjPkgPath:  typeInfo.PkgPath,
 			Kind:        annotations.TestOnlyOnType,
 			UsedInFile:  *ctx.fileName,
 			Reason:      fmt.Sprintf("type %s is marked @testonly and can only be used in test files", typeInfo.TypeName),
@@ -277,6 +278,7 @@ func findTypeUsageViolation(
 		return &TestOnlyViolation{
 			Pos:         pos,
 			TestOnlyObj: typeInfo.TypeName,
+			ObjPkgPath:  typeInfo.PkgPath,
 			Kind:        annotations.TestOnlyOnType,
 			UsedInFile:  *ctx.fileName,
 			Reason:      fmt.Sprintf("type %s is marked @testonly and can only be used in test files", typeInfo.TypeName),
